@@ -6,10 +6,15 @@ the hand-written lattice model `Model/Lattices/Planar2DCode.lean` (tied to
 commute, whose logicals commute with the stabilizers and anticommute with each other;
 `n = Lx·Ly + (Lx−1)(Ly−1)`, `k = 1`; `get_deformation` follows the stated rule at every location.
 
-Not proved here for all sizes: the rank clause (`rank H = n − k`); it is covered per instance
-by the kernel-checked tables of `Properties/C01.lean`.
+Rank clause, for all sizes, at the operator level: the generators at all stabilizer locations are independent
+(`IndepGenerators`: every non-empty sub-family has a Pauli operator on the qubits that
+anticommutes with an odd number of its members, hence with their product), and there are exactly
+`n − k` of them.  What is NOT proved here is the translation of this operator-level statement into
+`finrank (span rows) = n − k` over `ZMod 2` (it needs the bridge `opAntiCount` ↔ symplectic form,
+bilinearity, and the generic upper bound of `Properties/C01.lean`); the matrix-level rank is
+covered per instance by the kernel-checked tables of `Properties/C01.lean`.
 -/
-import PanqecVerif.Proofs.LatPlanar2DCodeC
+import PanqecVerif.Proofs.LatPlanar2DCodeRank
 
 namespace Panqec.C01Planar2DCode
 open Panqec.Planar2DCode Panqec.Lat2D
@@ -36,6 +41,25 @@ theorem k_value (Lx Ly : Nat) : (lattice Lx Ly).toCodeData.k = 1 := rfl
 theorem n_stabilizers (Lx Ly : Nat) :
     (lattice Lx Ly).stabs.length = (Lx - 1) * Ly + Lx * (Ly - 1) :=
   length_stabs Lx Ly
+
+/-- rank clause, operator level: the generators at ALL stabilizer locations are independent —
+    every non-empty duplicate-free sub-family `T` has a Pauli operator `d` on the qubits
+    anticommuting with an odd number of members of `T` (so no non-trivial product of generators
+    is trivial) — every size -/
+theorem generators_independent (Lx Ly : Nat) :
+    IndepGenerators (lattice Lx Ly) (lattice Lx Ly).stabs :=
+  indep_all Lx Ly
+
+/-- there are exactly `n − k` generators (`Lx, Ly ≥ 1`) -/
+theorem generators_count (Lx Ly : Nat) (hx : 1 ≤ Lx) (hy : 1 ≤ Ly) :
+    (lattice Lx Ly).stabs.length + (lattice Lx Ly).toCodeData.k = (lattice Lx Ly).toCodeData.n := by
+  have h := length_stabs_eq hx hy
+  have hn : 1 ≤ (qubits Lx Ly).length := by
+    rw [length_qubits]
+    have : 1 ≤ Lx * Ly := Nat.mul_le_mul hx hy
+    omega
+  show (stabs Lx Ly).length + 1 = (qubits Lx Ly).length
+  omega
 
 /-- `is_qubit` in closed form -/
 theorem isQubit_rule (Lx Ly : Nat) (x y : Int) :
@@ -99,5 +123,7 @@ example : (lattice 3 2).getStab [1, 1] = [([2, 1], .X), ([1, 0], .X), ([1, 2], .
 example : (lattice 3 2).getStab [1, 0] = [] := by decide
 example : (lattice 3 2).toCodeData.n = 8 := by decide
 example : getDeformation "XZZX" "y" [2, 1] = some PauliMap.swapXZ := by decide
+example : IndepGenerators (lattice 3 2) (lattice 3 2).stabs := generators_independent 3 2
+example : (lattice 3 2).stabs.length = 7 := by decide
 
 end Panqec.C01Planar2DCode
